@@ -121,6 +121,66 @@ def flat_request(case, rec, ex):
             "terms": terms, "tree": rec["tree"], "modes": modes}
 
 
+def chunk_request(case, rec, ex):
+    """product Einsum with flatten() of a tuple of ranks of ONE tensor and uniform_occupancy levels on the flattened rank (leader:
+    that tensor): the request for Props/C03Chunk.chunk_nest - per loop of the loop order either a chunk level (driver, tuple width,
+    occupancy, loop variable) or an ordinary level (co-iterated, or driven by the tensor for the ranks of the flattened tuple)"""
+    import re
+    e = case["eins"][0]
+    d = rec["yaml"]
+    parts = ((d.get("mapping") or {}).get("partitioning") or {}).get(e["out"]) or {}
+    if len(parts) != 2 or len(e["terms"]) != 1 or e["terms"][0]["kind"] != "times":
+        return None
+    keys = [k for k in parts if k.startswith("(")]
+    if len(keys) != 1 or parts[keys[0]] != ["flatten()"]:
+        return None
+    tup = [x.strip() for x in keys[0].strip("()").split(",")]
+    flat = "".join(tup)
+    if flat not in parts:
+        return None
+    stack = parts[flat]
+    terms = c01.lean_terms(case, ex)
+    holders = [i for i, x in enumerate(terms[0]["tensors"]) if all(r in x["ranks"] for r in tup)]
+    if len(holders) != 1:
+        return None
+    hname = terms[0]["tensors"][holders[0]]["name"]
+    occ = []
+    for pstr in stack:
+        m = re.fullmatch(r"uniform_occupancy\((\w+)\.(\w+)\)", pstr)
+        if not m or m.group(1) != hname:
+            return None
+        occ.append(int(m.group(2)) if m.group(2).isdigit() else case["env"].get(m.group(2)))
+    if any(o is None or o < 1 for o in occ):
+        return None
+    lo = ((d.get("mapping") or {}).get("loop-order") or {}).get(e["out"]) or (pool.loop_ranks(d) or {}).get(e["out"])
+    if lo is None:
+        return None
+    nl = len(stack)
+    others = [r for r in terms[0]["tensors"][holders[0]]["ranks"] if r not in tup]
+    loop, entries, seen = [], [], []
+    for r in lo:
+        mm = re.fullmatch(re.escape(flat) + r"(\d+)", r)
+        if mm:
+            lvl = int(mm.group(1))
+            if lvl > nl:
+                return None
+            if lvl >= 1:
+                if any(x not in seen for x in others):
+                    return None          # the flattened tuple must be the leading coordinates of the tensor at every chunk level
+                entries.append(["chunk", holders[0], len(tup), occ[nl - lvl], r.lower()])
+            else:
+                for x in tup:
+                    loop.append(x); entries.append(["lvl", holders[0]])
+        else:
+            if r not in case["ext"]:
+                return None
+            loop.append(r); entries.append(["lvl", "co"]); seen.append(r)
+    if sorted(loop) != sorted(set(loop)) or any(r not in case["ext"] for r in loop):
+        return None
+    return {"op": "nest_chunk", "loop": loop, "exts": [case["ext"][r] for r in loop], "out_name": e["out"], "out_ranks": list(case["decl"][e["out"]]),
+            "terms": terms, "tree": rec["tree"], "entries": entries}
+
+
 def check_model(ctx, recs):
     """tie of C03.static_then_chain to the real compiler: the model nest (outer loops, split of the fibers reached at the
     leader's boundaries, inner loops) has the real program's loop skeleton and computes what the real program computes on the
@@ -132,7 +192,7 @@ def check_model(ctx, recs):
         for ex in r["execs"][:2]:
             if not ex.get("ok"):
                 continue
-            q = dyn_request(r["case"], r, ex) or flat_request(r["case"], r, ex)
+            q = dyn_request(r["case"], r, ex) or flat_request(r["case"], r, ex) or chunk_request(r["case"], r, ex)
             if q is None:
                 ctx.stat("dynamic_model_not_applicable"); continue
             reqs.append(q); metas.append((r, r["case"], ex))
